@@ -149,6 +149,8 @@ def run(ctx):
     if norev:
         scan_stage(ctx, zr, "isolate-merge-nocount-rev", "pebble", "local", ["-segments", "1", "-P", "3"], stats, samples,
                    expect="C13-merge-revscan-no-count", driver="mergesim", cfg="ZScanTraceMerge.cfg", parts=1)
+    scan_stage(ctx, zr, "isolate-fullscan-match", "pebble", "local", ["-segments", "1", "-P", "3", "-fullmatch-count"] + norev, stats, samples,
+               expect="C13-fullscan-match-ends-early", driver="mergesim", cfg="ZScanTraceMerge.cfg", parts=1)
     if not q:
         scan_stage(ctx, zr, "merge-5part", "pebble", "local", ["-segments", "4", "-P", "5"] + norev, stats, samples,
                    driver="mergesim", cfg="ZScanTraceMerge.cfg", parts=2)
@@ -199,6 +201,9 @@ def run(ctx):
         "page contract is permissive where the documentation is silent: COUNT is an upper bound, the end mark may come "
         "with the last element or one page later",
         "a reverse iteration starts from an upper-bound cursor (documented); element names are non-empty",
-        "FULLSCAN is not covered; values / scores returned next to the elements are not compared (C08)",
+        "FULLSCAN is driven through the merge stage only (elements = (key, field/member/list element) pairs, per type, with "
+        "MATCH, with partitions dropped from / joining the cursor); its order is not documented: the storage order (kv: "
+        "bytewise, collections: key length first) is taken as the iteration order; a list cursor is an internal sequence "
+        "number and is taken to designate the last returned element; values / scores are not compared (C08)",
         "mem engine: prefix-free name pools only (recorded C20 finding on radix iterators)",
     ])
